@@ -27,6 +27,17 @@ pub fn block_on<F: Future>(f: F) -> F::Output {
     RT.with(|rt| rt.block_on(f))
 }
 
+/// `read_response` allocates a zeroed 10 MiB buffer per call.  glibc raises its mmap
+/// threshold dynamically after the first such buffer is freed and then serves the next ones
+/// from the heap, where `calloc` has to memset all 10 MiB (~1 ms per read).  Pinning the
+/// threshold keeps these buffers on fresh (already zero) mmap pages.  Allocator tuning of the
+/// harness process only; no effect on what the code under test computes.
+pub fn pin_mmap_threshold() {
+    unsafe {
+        libc::mallopt(libc::M_MMAP_THRESHOLD, 1 << 20);
+    }
+}
+
 // ------------------------------------------------------------------ protobuf (independent)
 
 pub fn put_varint(mut v: u64, out: &mut Vec<u8>) {
